@@ -81,10 +81,18 @@ type EngineOpts struct {
 }
 
 func (e *Engine) declare(line string) {
-	if !e.preSet[line] {
-		e.preSet[line] = true
-		e.prelude = append(e.prelude, line)
+	if e.preSet[line] {
+		return
 	}
+	if m := declNameRe.FindStringSubmatch(line); m != nil {
+		// one declaration per symbol, whatever the spacing
+		if e.preSet["decl:"+m[1]] {
+			return
+		}
+		e.preSet["decl:"+m[1]] = true
+	}
+	e.preSet[line] = true
+	e.prelude = append(e.prelude, line)
 }
 
 func (e *Engine) strID(s string) string {
